@@ -183,8 +183,28 @@ func c11Search(start *big.Int, want string) []byte {
 // the name of the generator class.  (The outcome class is recomputed by the
 // check from the bytes.)
 func C11GenRistString(t *rapid.T, label string) ([]byte, string) {
-	k := rapid.IntRange(0, 17).Draw(t, label+"_k")
+	k := rapid.IntRange(0, 19).Draw(t, label+"_k")
 	switch k {
+	case 18, 19: // agrees with p above one byte position and differs there (a byte-wise canonicity test that goes wrong
+		// at one index decides these wrongly); made even, and walked along the differing byte's neighbour until the
+		// string is a VALID encoding in three cases out of four (a wrongly rejected string must be a valid one to show)
+		b := BytewiseProbe(t, label, ref.P)
+		b[31] &= 0x7f
+		if rapid.IntRange(0, 3).Draw(t, label+"_bwvalid") > 0 {
+			b[0] &= 0xfe
+			step := rapid.SampledFrom([]int{0, 1, 30, 16}).Draw(t, label+"_bwstep") // which byte is walked
+			for n := 0; n < 48; n++ {
+				if c, _ := C11RistDecodeMath(b); c == C11OK {
+					break
+				}
+				if step == 0 {
+					b[0] += 2
+				} else {
+					b[step]--
+				}
+			}
+		}
+		return b, "gen:bytewise-p"
 	case 0, 1, 2: // valid: ENCODE([a]B)
 		return ref.ToLE(c11ValidS(t, label), 32), "gen:valid"
 	case 3: // valid s -> p - s: the negative alias of the same Jacobi-quartic point
